@@ -12,6 +12,7 @@ end hybrid.DefaultConfig
 namespace Skel
 def CloseConnection : List String := ["delete", "RemoveControlConnection", "RemoveTunnelConnection", "connStateStore.UnregisterConnection"]
 def CreateConnection : List String := ["streamMgr.CreateStream", "connLock.Lock", "connLock.Unlock"]
+def HandlersComponent_Initialize : List String := ["session.NewConnectionStateStore", "SessionMgr.SetConnectionStateStore", "session.NewCrossNodePool", "SessionMgr.SetCrossNodePool"]
 def Hybrid_Get : List String := ["h.getCategory", "h.getCacheForKey", "cache.Get", "h.getSharedPersistent", "cache.Get", "h.persistent.Get"]
 def Hybrid_getCacheForKey : List String := ["h.isShared"]
 def Hybrid_getCategory : List String := ["h.isSharedPersistent", "h.isShared", "h.isPersistent"]
@@ -21,6 +22,7 @@ def SendCommandToClient : List String := ["GetControlConnectionByClientID", "sen
 def SendHTTPProxyRequest : List String := ["GetControlConnectionByClientID", "sendHTTPProxyRequestLocal", "connStateStore.FindClientNode", "sendHTTPProxyRequestCrossNode"]
 def StreamManager_CreateStream : List String := ["mu.Lock", "mu.Unlock", "factory.NewStreamProcessor"]
 def UpdateAuth : List String := ["mu.Lock", "mu.Unlock", "unindexLocked"]
+def handleDNSQueryCrossNode : List String := ["connStateStore.FindClientNode", "crossNodePool.Get", "WriteFrame", "ReadFrame"]
 def handleHandshake : List String := ["RegisterControlConnection", "RegisterControlConnection", "authHandler.HandleHandshake", "sendHandshakeResponse", "clientRegistry.DropStaleIndex", "sendHandshakeResponse", "clientRegistry.GetByClientID", "connStateStore.UnregisterConnection", "clientRegistry.Remove", "clientRegistry.UpdateAuth", "connStateStore.RegisterConnection"]
 def handleHeartbeat : List String := ["clientRegistry.GetByConnID", "controlConn.UpdateActivity", "connStateStore.RefreshConnection"]
 def removeConnectionLocked : List String := ["Stream.Close", "unindexLocked", "delete"]
